@@ -647,7 +647,20 @@ class CallBuilder:
     if k == 'ins':
       return pg.Insertion(self.build(desc[1]))
     if k == 'ref':
-      return pg.Ref(self.build(desc[1]))
+      v = self.build(desc[1])
+      r = pg.Ref(v)
+      if (desc[1][0] == 'node' and not self.problems and self.forest
+          and isinstance(v, pg.Symbolic)):
+        # A reference to a node that is stored in the forest was made: the
+        # forest must be as before (same judgement as the step kind wrap[Ref]).
+        if self.counters is not None:
+          self.counters['ctor_checks'] += 1
+          self.counters['ctor_checks:Ref(node)'] += 1
+        for clause, detail in TM.tree_ok(
+            [x for x in self.forest if isinstance(x, pg.Symbolic)
+             and x.sym_parent is None]):
+          self.problems.append((clause, 'wrap[Ref]', detail))
+      return r
     return D.build(desc, self.forest)
 
   def construct(self, form, desc):
